@@ -6,7 +6,7 @@
    build failure disabled cycle detection for the rest of the run"); the model follows the repaired code and the hang
    witness stays in the harness' adversarial stream.  Every conjunct of the statement is proved (C05_full), for all
    graphs, thread counts, --keep_going settings and all interleavings. *)
-From PlzV Require Import Base.Harness Model.Sched Proof.Sched_Base Proof.Sched_Inv Proof.Sched_Deps Proof.C04 Proof.Sched_Measure Proof.C05 Proof.C05_Defs Proof.C05_Live Proof.C05_Exit.
+From PlzV Require Import Base.Harness Model.Sched Proof.Sched_Base Proof.Sched_Inv Proof.Sched_Deps Proof.C04 Proof.Sched_Measure Proof.C05 Proof.C05_Defs Proof.C05_Live Proof.C05_Exit Proof.C05_Subrepo.
 
 (* the labels an invocation needs: the requested ones and, transitively, their dependencies *)
 Definition needed (g : graph) (l : nat) : Prop := In l (g_req g) \/ exists r, In r (g_req g) /\ tdep g r l.
@@ -58,6 +58,35 @@ Theorem C05_quiescent_cycle : forall g, wf g -> forall s, reachable g s -> exite
               failed (apply g s (LTimerCycleCheck (a :: c))) = true.
 Proof. exact only_timer_means_cycle. Qed.
 Print Assumptions C05_quiescent_cycle.
+
+(* Waiting, as the LTS abstracts it, is what the code does.  (1) core.waitOnChan - behind WaitForBuild and SyncParsePackage -
+   run as the program gotrans reads against ANY sequence of close / 10 s-timer events returns only after the close.
+   (2) A queueTargetAsync goroutine gets past a dependency only when FinishBuild has been called for it, and a dependency it
+   passes is built.  (3) BUILD-file errors around subrepos: over every history of subinclude steps of the BUILD-file
+   interpreters, checkSubrepo never makes the interpreter of a package wait (SyncParsePackage) for that same package -
+   it reports "not defined in this package yet" exactly when the package that should define the subrepo is the one being
+   interpreted. *)
+Theorem C05_waits :
+  (forall env b, wc_exec waitonchan_prog env false = Some b -> b = true) /\
+  (forall g s, reachable g s -> forall t d,
+     (enabled g s (LWaitDep t d) = true \/ enabled g s (LDepFailed t d) = true -> fin s d = true) /\
+     (enabled g s (LWaitDep t d) = true -> is_built (ts s d) = true)) /\
+  (forall roots steps p q, In (p, q) (waits (sub_run subrepo_guard_arg (mkPW roots []) steps)) -> p <> q) /\
+  (forall label definer dependent,
+     check_subrepo subrepo_guard_arg label definer dependent false = CSNotYet <-> definer = dependent).
+Proof.
+  split; [exact waitonchan_waits|]. split.
+  - intros g s Hr t d. split; [exact (wait_step_needs_finish g s t d) | exact (passed_dependency_final g s Hr t d)].
+  - split; [exact sub_run_from_start | exact check_subrepo_not_yet_iff].
+Qed.
+Print Assumptions C05_waits.
+(* non-vacuity: an environment in which the timer fires twice before the close; a history that ends with a real wait *)
+Example C05_waits_nonvacuous :
+  wc_exec waitonchan_prog [WETimer; WETimer; WEClose] false = Some true /\
+  wc_exec waitonchan_prog [WETimer; WETimer] false = None /\
+  waits (sub_run subrepo_guard_arg (mkPW [(0, 1); (0, 2)] []) [((1, 0), (0, 2), (0, 1)); ((2, 0), (0, 1), (0, 1))]) = [((0, 1), (0, 2))] /\
+  interp (sub_run subrepo_guard_arg (mkPW [(0, 1); (0, 2)] []) [((1, 0), (0, 2), (0, 1)); ((2, 0), (0, 1), (0, 1))]) = [(0, 2)].
+Proof. repeat split; reflexivity. Qed.
 
 (* Non-vacuity 1: the run found for an event sequence observed on the real plz (diamond, failing middle target,
    --keep_going): the graph is well-formed, the run ends (exited), a command started whose dependency chain is
